@@ -100,6 +100,10 @@ fn run_line(line: &str) -> Result<String, String> {
         "rd" => suite_rd(&mut t),
         "ard" => suite_ard(&mut t),
         "sk" => suite_sk(&mut t),
+        "msgw" => suite_msgw(&mut t),
+        "msgr" => suite_msgr(&mut t),
+        "appw" => suite_appw(&mut t),
+        "appr" => suite_appr(&mut t),
         s => Err(format!("unknown suite {s}")),
     }
 }
@@ -465,4 +469,109 @@ fn suite_sk(t: &mut Toks) -> Result<String, String> {
             }
         })
     }
+}
+
+fn mtype_of(n: usize) -> Result<pilota::thrift::TMessageType, String> {
+    use pilota::thrift::TMessageType::*;
+    Ok(match n {
+        1 => Call,
+        2 => Reply,
+        3 => Exception,
+        4 => OneWay,
+        _ => return Err(format!("bad message type {n}")),
+    })
+}
+
+/// msgw <pk> <bk> <name hex> <type 1..4> <seq>  ->  W <hex> | WERR <class>
+fn suite_msgw(t: &mut Toks) -> Result<String, String> {
+    use pilota::thrift::TMessageIdentifier;
+    let pk = parse_pk(t.next()?)?;
+    let bk = parse_bk(t.next()?)?;
+    let name = unhex(t.next()?)?;
+    let mt = mtype_of(t.next_usize()?)?;
+    let seq: i32 = t.next()?.parse::<i32>().map_err(|e| e.to_string())?;
+    let ident = TMessageIdentifier::new(
+        unsafe { faststr::FastStr::from_bytes_unchecked(Bytes::copy_from_slice(&name)) },
+        mt,
+        seq,
+    );
+    let r: Result<Vec<u8>, ThriftException> = match bk {
+        Bk::Contig => {
+            let mut buf = BytesMut::new();
+            let r = match pk {
+                Pk::Binary => TBinaryProtocol::new(&mut buf, false).write_message_begin(&ident),
+                Pk::BinaryLe => TBinaryLeProtocol::new(&mut buf, false).write_message_begin(&ident),
+                Pk::Compact => TCompactOutputProtocol::new(&mut buf, false).write_message_begin(&ident),
+            };
+            r.map(|_| buf.to_vec())
+        }
+        Bk::Linked(z) => {
+            let mut lb = LinkedBytes::new();
+            let r = match pk {
+                Pk::Binary => TBinaryProtocol::new(&mut lb, z).write_message_begin(&ident),
+                Pk::BinaryLe => TBinaryLeProtocol::new(&mut lb, z).write_message_begin(&ident),
+                Pk::Compact => TCompactOutputProtocol::new(&mut lb, z).write_message_begin(&ident),
+            };
+            r.map(|_| linked_concat(&mut lb))
+        }
+    };
+    Ok(match r {
+        Ok(b) => format!("W {}", hex(&b)),
+        Err(e) => format!("WERR {}", show_err(&e)),
+    })
+}
+
+/// msgr <pk> <hex>  ->  ok <name hex> <type> <seq> REM <k> | err <class>
+fn suite_msgr(t: &mut Toks) -> Result<String, String> {
+    let pk = parse_pk(t.next()?)?;
+    let input = unhex(t.next()?)?;
+    let mut b = Bytes::copy_from_slice(&input);
+    let r = match pk {
+        Pk::Binary => TBinaryProtocol::new(&mut b, false).read_message_begin(),
+        Pk::BinaryLe => TBinaryLeProtocol::new(&mut b, false).read_message_begin(),
+        Pk::Compact => TCompactInputProtocol::new(&mut b).read_message_begin(),
+    };
+    Ok(match r {
+        Err(e) => show_err(&e),
+        Ok(m) => format!("ok {} {} {} REM {}", hex(m.name.as_bytes()), m.message_type as u8, m.sequence_number, b.len()),
+    })
+}
+
+/// appw <pk> <message hex> <kind i32>  ->  W <hex>   (ApplicationException::encode)
+fn suite_appw(t: &mut Toks) -> Result<String, String> {
+    use pilota::thrift::{ApplicationException, ApplicationExceptionKind, Message};
+    let pk = parse_pk(t.next()?)?;
+    let msg = unhex(t.next()?)?;
+    let kind: i32 = t.next()?.parse::<i32>().map_err(|e| e.to_string())?;
+    let ex = ApplicationException::new(
+        ApplicationExceptionKind::from(kind),
+        unsafe { faststr::FastStr::from_bytes_unchecked(Bytes::copy_from_slice(&msg)) },
+    );
+    let mut buf = BytesMut::new();
+    let r = match pk {
+        Pk::Binary => ex.encode(&mut TBinaryProtocol::new(&mut buf, false)),
+        Pk::BinaryLe => ex.encode(&mut TBinaryLeProtocol::new(&mut buf, false)),
+        Pk::Compact => ex.encode(&mut TCompactOutputProtocol::new(&mut buf, false)),
+    };
+    Ok(match r {
+        Ok(()) => format!("W {}", hex(&buf)),
+        Err(e) => format!("WERR {}", show_err(&e)),
+    })
+}
+
+/// appr <pk> <hex>  ->  ok <message hex> <kind> REM <k> | err <class>   (ApplicationException::decode)
+fn suite_appr(t: &mut Toks) -> Result<String, String> {
+    use pilota::thrift::{ApplicationException, Message};
+    let pk = parse_pk(t.next()?)?;
+    let input = unhex(t.next()?)?;
+    let mut b = Bytes::copy_from_slice(&input);
+    let r = match pk {
+        Pk::Binary => ApplicationException::decode(&mut TBinaryProtocol::new(&mut b, false)),
+        Pk::BinaryLe => ApplicationException::decode(&mut TBinaryLeProtocol::new(&mut b, false)),
+        Pk::Compact => ApplicationException::decode(&mut TCompactInputProtocol::new(&mut b)),
+    };
+    Ok(match r {
+        Err(e) => show_err(&e),
+        Ok(x) => format!("ok {} {} REM {}", hex(x.message().as_bytes()), x.kind().as_i32(), b.len()),
+    })
 }
